@@ -19,6 +19,7 @@ fixed("C01","C01/repack-mismatch/URI/backslash-in-octet-field","b110fba","URI ta
 fixed("C01","C01/pack-error/URI/octet-field-over-1025","714ee18","URI target / CAA value longer than 1025 characters failed to pack with ErrBuf (length guard copied from the character-string packer)")
 
 # ---- C03
+fixed("C02","panic/UnpackRRWithHeader(short RDLENGTH)/DS/.unpackStringHex","57c788c","UnpackRRWithHeader panicked (slice bounds out of range) for DS, DNSKEY, RRSIG, TLSA, SSHFP, IPSECKEY ... when the header's RDLENGTH ends before the type's fixed fields do and the buffer continues behind the RDATA (reported by a round-5 sub-agent as present on the clean checkout)")
 fixed("C03","C03/IsDomainName-true-model-false/wire-length-256","f4d6b59","names of 256 and 257 wire octets were accepted by IsDomainName and packed by PackDomainName although UnpackDomainName rejects them (255-octet limit)")
 fixed("C03","C03/packer-accepts-non-fqdn/random-text","bb43edc","IsFqdn counted the backslashes before the final dot in runes: a multi-byte UTF-8 sequence in front of them flipped the parity, so names ending in an escaped dot were packed and some fully-qualified ones refused")
 # ---- C16
